@@ -57,7 +57,7 @@ func C12(j *core.Job) {
 			// keep only the generated generator functions (drop template files of the all profile)
 			var files []*gen.File
 			for _, f := range p.Files {
-				if len(f.Funcs) > 0 {
+				if len(f.Funcs) > 0 || strings.HasSuffix(f.Name, "helpers.go") {
 					files = append(files, f)
 				}
 			}
@@ -153,9 +153,15 @@ func C12(j *core.Job) {
 			for _, pk := range linked {
 				fmt.Fprintf(&imp, "\topt%[1]s \"scratch/opt/%[1]s\"\n\tref%[1]s \"scratch/ref/%[1]s\"\n", pk.name)
 				fmt.Fprintf(&ap, "\tref = append(ref, ref%[1]s.Entries...)\n\topt = append(opt, opt%[1]s.Entries...)\n", pk.name)
-				src := filepath.Join(dir, "src", pk.name, "reg.go")
-				data, _ := os.ReadFile(src)
-				writeFile(filepath.Join(dir, "opt", pk.name, "reg.go"), string(data))
+				// files of the package the compiler did not emit (registry, plain helper file)
+				ents, _ := os.ReadDir(filepath.Join(dir, "src", pk.name))
+				for _, e := range ents {
+					dst := filepath.Join(dir, "opt", pk.name, e.Name())
+					if _, err := os.Stat(dst); err != nil {
+						data, _ := os.ReadFile(filepath.Join(dir, "src", pk.name, e.Name()))
+						writeFile(dst, string(data))
+					}
+				}
 			}
 			writeFile(filepath.Join(dir, "main.go"), "package main\n\nimport (\n"+imp.String()+"\t\"verif/sim/driver\"\n\t\"verif/sim/vrt\"\n)\n\nfunc main() {\n\tvar ref, opt []vrt.Entry\n"+ap.String()+"\tdriver.Main(ref, opt, opt)\n}\n")
 			out, err := b.run(10*time.Minute, dir, "go", "build", "-gcflags=-e", "-o", "run", ".")
